@@ -10,6 +10,7 @@ import (
 	"strings"
 	"sync"
 	"syscall"
+	"time"
 )
 
 // verif hook: wraps the local VFS so that a test harness can trace every file
@@ -27,6 +28,8 @@ var (
 	verifLeft  int
 	verifTorn  int
 	verifSeq   int
+
+	verifStallFile string
 )
 
 func SetVerifFSCallback(cb VerifFSCallback) {
@@ -50,6 +53,7 @@ func init() {
 	if arm := os.Getenv("VERIF_FS_ARM"); arm != "" {
 		verifParseArm(arm)
 	}
+	verifStallFile = os.Getenv("VERIF_FS_STALL")
 	localFS = &verifVFS{VFS: localFS}
 }
 
@@ -72,6 +76,29 @@ func verifParseArm(s string) {
 	}
 }
 
+// verifStall is called WITHOUT verifMu held: when the control file named by VERIF_FS_STALL holds
+// "pattern,milliseconds", a mutation whose "op path" matches sleeps that long before it proceeds
+// (stretches a window such as "log switched, log files not yet removed"; other goroutines keep running).
+func verifStall(op, path string) {
+	if verifStallFile == "" {
+		return
+	}
+	b, err := os.ReadFile(verifStallFile)
+	if err != nil {
+		return
+	}
+	parts := strings.Split(strings.TrimSpace(string(b)), ",")
+	if len(parts) != 2 {
+		return
+	}
+	re, err := regexp.Compile(parts[0])
+	ms, err2 := strconv.Atoi(parts[1])
+	if err != nil || err2 != nil || !re.MatchString(op+" "+path) {
+		return
+	}
+	time.Sleep(time.Duration(ms) * time.Millisecond)
+}
+
 // verifBefore is called with verifMu held, right before a mutation.
 // It returns n >= 0 if only the first n bytes of data must be written before dying.
 func verifBefore(op, path string, data []byte) int {
@@ -91,7 +118,7 @@ func verifBefore(op, path string, data []byte) int {
 	if verifTrace != nil {
 		fmt.Fprintf(verifTrace, "%d %s %s %d\n", verifSeq, op, path, len(data))
 	}
-	if verifArmed && verifPat.MatchString(path) {
+	if verifArmed && verifPat.MatchString(op+" "+path) {
 		verifLeft--
 		if verifLeft == 0 {
 			if verifTorn >= 0 && op == "write" && verifTorn < len(data) {
@@ -123,6 +150,7 @@ func (v *verifVFS) wrap(f File, err error) (File, error) {
 
 func (v *verifVFS) OpenFile(name string, flag int, perm os.FileMode, opt ...FSOption) (File, error) {
 	if flag&(os.O_CREATE|os.O_TRUNC) != 0 {
+		verifStall("openfile", name)
 		verifMu.Lock()
 		defer verifMu.Unlock()
 		verifBefore("openfile", name, nil)
@@ -130,6 +158,7 @@ func (v *verifVFS) OpenFile(name string, flag int, perm os.FileMode, opt ...FSOp
 	return v.wrap(v.VFS.OpenFile(name, flag, perm, opt...))
 }
 func (v *verifVFS) Create(name string, opt ...FSOption) (File, error) {
+	verifStall("create", name)
 	verifMu.Lock()
 	defer verifMu.Unlock()
 	verifBefore("create", name, nil)
@@ -142,6 +171,7 @@ func (v *verifVFS) CreateV2(name string, opt ...FSOption) (File, error) {
 	return v.Create(name, opt...)
 }
 func (v *verifVFS) Remove(name string, opt ...FSOption) error {
+	verifStall("remove", name)
 	verifMu.Lock()
 	defer verifMu.Unlock()
 	verifBefore("remove", name, nil)
@@ -178,6 +208,7 @@ func (v *verifVFS) MkdirAll(path string, perm os.FileMode, opt ...FSOption) erro
 	return v.VFS.MkdirAll(path, perm, opt...)
 }
 func (v *verifVFS) RenameFile(oldPath, newPath string, opt ...FSOption) error {
+	verifStall("rename", oldPath+" -> "+newPath)
 	verifMu.Lock()
 	defer verifMu.Unlock()
 	verifBefore("rename", oldPath+" -> "+newPath, nil)
